@@ -85,6 +85,7 @@ fn main() {
             "s_panic_in_scope" => mirharness::s_panic_in_scope(),
             "end_scope2" => mirharness::end_scope2(),
             "s_global" => mirharness::s_global(),
+            "s_global_late" => mirharness::s_global_late(),
             "m_forms" => mirharness::m_forms(),
             "m_dynamic" => mirharness::m_dynamic(),
             _ => mirharness::emit(),
@@ -101,6 +102,13 @@ fn main() {
         let g = GLOBAL_HITS.load(std::sync::atomic::Ordering::SeqCst);
         println!("global hits {}", g);
         if g != 3 || log.len() != 1 || log[0].0 != 1 { v.push("fallthrough_local_global_noop"); v.push("exactly_once"); }
+    }
+    if calls.iter().any(|c| c == "s_global_late") {
+        // expected: local rec1, local rec2, local rec2, global
+        let log = LOG.with(|l| l.borrow().clone());
+        let g = GLOBAL_HITS.load(std::sync::atomic::Ordering::SeqCst);
+        println!("global hits {}", g);
+        if g != 1 || log.len() != 3 || log[0].0 != 1 || log[1].0 != 2 || log[2].0 != 2 { v.push("fallthrough_local_global_noop"); v.push("exactly_once"); }
     }
     if calls.iter().any(|c| c == "m_forms") {
         let got = DETAIL.with(|d| d.borrow().clone());
